@@ -126,23 +126,35 @@ func TestVerifC16Child(t *testing.T) {
 	}
 	var d int
 	fmt.Sscanf(ms, "%d", &d)
-	if runtime.GOMAXPROCS(0) < 4 {
-		runtime.GOMAXPROCS(4)
+	if runtime.GOMAXPROCS(0) < 8 {
+		runtime.GOMAXPROCS(8)
 	}
-	deadline := time.Now().Add(time.Duration(d) * time.Millisecond)
 	var wg sync.WaitGroup
 	bad := make(chan string, 64)
-	for g := 0; g < 16; g++ {
+	// all negotiations start together, in a process that has matched nothing yet: state that is filled lazily on first
+	// use (caches of parsed versions, of names) is written by all of them at once
+	start := make(chan struct{})
+	var deadline time.Time
+	const G = 48
+	for g := 0; g < G; g++ {
 		wg.Add(1)
 		go func(g int) {
 			defer wg.Done()
 			names := []string{"preconf", "discovery", "handshake", "alpha"}
-			for i := 0; time.Now().Before(deadline); i++ {
-				M, m, p := uint64(g%3), uint64((i*7+g)%50), uint64(i%1000+g*1000)
-				HM, Hm := uint64((g+i)%3), uint64((i*3)%50)
+			<-start
+			for i := 0; i < 40 || time.Now().Before(deadline); i++ {
+				// versions nobody has asked for before, on both sides, and the handful everybody uses
+				M, m, p := uint64(g%3), uint64((i*7+g)%50), uint64(i*G+g)
+				HM, Hm, Hp := uint64((g+i)%3), uint64((i*3)%50), uint64(i%7)
+				if i%4 == 3 {
+					Hp = uint64(i*G + g)
+				}
 				n := names[(g+i)%len(names)]
-				hn := names[(i/5)%len(names)]
-				got, _ := matchProtocolIDWithSemver(fmt.Sprintf("/%s/%d.%d.%d", n, M, m, p), hn, fmt.Sprintf("%d.%d.%d", HM, Hm, i%7))
+				hn := n
+				if i%3 == 2 {
+					hn = names[(i/5)%len(names)]
+				}
+				got, _ := matchProtocolIDWithSemver(fmt.Sprintf("/%s/%d.%d.%d", n, M, m, p), hn, fmt.Sprintf("%d.%d.%d", HM, Hm, Hp))
 				want := n == hn && M == HM && m <= Hm
 				if got != want {
 					select {
@@ -153,6 +165,9 @@ func TestVerifC16Child(t *testing.T) {
 			}
 		}(g)
 	}
+	time.Sleep(20 * time.Millisecond) // let every goroutine reach the barrier
+	deadline = time.Now().Add(time.Duration(d) * time.Millisecond)
+	close(start)
 	wg.Wait()
 	select {
 	case b := <-bad:
@@ -165,20 +180,50 @@ func TestVerifC16Child(t *testing.T) {
 
 // c16Stress: 0 = all verdicts right, 1 = a wrong verdict under concurrency, 2 = the child crashed
 func c16Stress(ms int) (int, string) {
-	cmd := exec.Command(os.Args[0], "-test.run=^TestVerifC16Child$", "-test.count=1")
-	cmd.Env = append(os.Environ(), fmt.Sprintf("VERIF_C16_STRESS_MS=%d", ms), "VERIF_OUT=")
-	out, err := cmd.CombinedOutput()
-	txt := string(out)
-	if strings.Contains(txt, "C16STRESS OK") && err == nil {
-		return 0, ""
+	// lazily filled state is written only early in the life of a process: many short fresh processes, not one long one
+	const rounds = 8
+	inconclusive, note := 0, ""
+	for r := 0; r < rounds; r++ {
+		res, n := c16StressOnce(ms / rounds)
+		if res > 0 {
+			return res, n
+		}
+		if res < 0 {
+			inconclusive++
+			note = n
+		}
 	}
-	if strings.Contains(txt, "C16STRESS WRONG") {
-		return 1, txt[strings.Index(txt, "C16STRESS WRONG"):]
+	if inconclusive > rounds/2 {
+		return -1, note
 	}
-	if len(txt) > 600 {
-		txt = txt[:600]
+	return 0, ""
+}
+
+func c16StressOnce(ms int) (int, string) {
+	txt := ""
+	for attempt := 0; attempt < 2; attempt++ {
+		cmd := exec.Command(os.Args[0], "-test.run=^TestVerifC16Child$", "-test.count=1", "-test.timeout=30m")
+		cmd.Env = append(os.Environ(), fmt.Sprintf("VERIF_C16_STRESS_MS=%d", ms), "VERIF_OUT=")
+		out, err := cmd.CombinedOutput()
+		txt = string(out)
+		if strings.Contains(txt, "C16STRESS OK") && err == nil {
+			return 0, ""
+		}
+		if strings.Contains(txt, "C16STRESS WRONG") {
+			return 1, txt[strings.Index(txt, "C16STRESS WRONG"):]
+		}
+		if strings.Contains(txt, "fatal error:") || strings.Contains(txt, "panic:") || strings.Contains(txt, "SIGSEGV") {
+			if len(txt) > 600 {
+				txt = txt[:600]
+			}
+			return 2, txt
+		}
+		// the child did not run to a verdict and did not crash either (could not be started, killed): environment
 	}
-	return 2, txt
+	if len(txt) > 300 {
+		txt = txt[:300]
+	}
+	return -1, "inconclusive: " + txt
 }
 
 type c16Reg struct{}
@@ -197,11 +242,86 @@ func c16NewSvc(t *testing.T, role string) *Service {
 	return svc
 }
 
+
+// c16Addr: the dialable address record of a started node; its listen addresses may take a moment to appear
+func c16Addr(svc *Service, slow int) ([]byte, error) {
+	deadline := time.Now().Add(time.Duration(slow) * 20 * time.Second)
+	for {
+		info := svc.host.Peerstore().PeerInfo(svc.host.ID())
+		if len(info.Addrs) == 0 {
+			info.Addrs = svc.host.Addrs()
+		}
+		if len(info.Addrs) > 0 {
+			return info.MarshalJSON()
+		}
+		if time.Now().After(deadline) {
+			return nil, fmt.Errorf("no listen address within the deadline")
+		}
+		time.Sleep(50 * time.Millisecond)
+	}
+}
+
+// c16Setup: a serving node of the given role and a connected bidder client.  Failures here (listen, dial on a loaded
+// machine) are failures of the environment, not observations: the caller retries and otherwise drops the cases.
+func c16Setup(role string, slow int, metrics bool) (server, client *Service, peer p2p.Peer, err error) {
+	mk := func(role string) (*Service, error) {
+		o, err := c16Opts(role)
+		if err != nil {
+			return nil, err
+		}
+		if metrics {
+			o.MetricsReg = prometheus.NewRegistry()
+		}
+		return New(o)
+	}
+	if server, err = mk(role); err != nil {
+		return nil, nil, p2p.Peer{}, fmt.Errorf("server: %w", err)
+	}
+	if client, err = mk("bidder"); err != nil {
+		_ = server.Close()
+		return nil, nil, p2p.Peer{}, fmt.Errorf("client: %w", err)
+	}
+	return server, client, p2p.Peer{}, nil
+}
+
+func c16Connect(server, client *Service, slow int) (p2p.Peer, error) {
+	addr, err := c16Addr(server, slow)
+	if err != nil {
+		return p2p.Peer{}, err
+	}
+	var last error
+	for attempt := 0; attempt < 3; attempt++ {
+		ctx, cancel := context.WithTimeout(context.Background(), time.Duration(slow)*60*time.Second)
+		pr, err := client.Connect(ctx, addr)
+		cancel()
+		if err == nil {
+			return pr, nil
+		}
+		last = err
+		time.Sleep(200 * time.Millisecond)
+	}
+	return p2p.Peer{}, last
+}
+
 // c16Route registers descs on a fresh node and lets a connected peer open every identifier of opens;
 // returns per identifier: 0 = refused by the negotiation, k = k-th handler ran, 99 = several handlers ran,
 // 98 = opened but no handler ran within the wait, 97 = could not be opened for another reason than a refusal
 func c16Route(t *testing.T, slow int, role string, descs [][2]string, oneCall bool, opens [][2]string) []int {
-	server, client := c16NewSvc(t, role), c16NewSvc(t, "bidder")
+	for attempt := 0; attempt < 3; attempt++ {
+		res, err := c16RouteOnce(slow, role, descs, oneCall, opens)
+		if err == nil {
+			return res
+		}
+		t.Logf("c16 routing: environment failure (attempt %d): %v", attempt+1, err)
+	}
+	return nil // inconclusive: the caller drops these cases
+}
+
+func c16RouteOnce(slow int, role string, descs [][2]string, oneCall bool, opens [][2]string) ([]int, error) {
+	server, client, _, err := c16Setup(role, slow, false)
+	if err != nil {
+		return nil, err
+	}
 	defer server.Close()
 	defer client.Close()
 	invoked := make(chan int, 64)
@@ -221,17 +341,12 @@ func c16Route(t *testing.T, slow int, role string, descs [][2]string, oneCall bo
 		}
 	}
 	c16Scramble(sd, invoked)
-	info := server.host.Peerstore().PeerInfo(server.host.ID())
-	addr, err := info.MarshalJSON()
+	peer, err := c16Connect(server, client, slow)
 	if err != nil {
-		t.Fatal(err)
+		return nil, fmt.Errorf("connect: %w", err)
 	}
-	ctx, cancel := context.WithTimeout(context.Background(), 60*time.Second)
+	ctx, cancel := context.WithTimeout(context.Background(), time.Duration(slow)*10*time.Minute)
 	defer cancel()
-	peer, err := client.Connect(ctx, addr)
-	if err != nil {
-		t.Fatalf("c16 routing: connect: %v", err)
-	}
 	res := make([]int, len(opens))
 	wait := time.Duration(slow) * 10 * time.Second
 	for i, o := range opens {
@@ -280,7 +395,7 @@ func c16Route(t *testing.T, slow int, role string, descs [][2]string, oneCall bo
 		}
 		res[i] = got
 	}
-	return res
+	return res, nil
 }
 
 
@@ -341,14 +456,9 @@ func TestVerifC16E2EChild(t *testing.T) {
 	}
 	server.AddStreamHandlers(sd...)
 	c16Scramble(sd, invoked)
-	info := server.host.Peerstore().PeerInfo(server.host.ID())
-	addr, err := info.MarshalJSON()
-	if err != nil {
-		t.Fatal(err)
-	}
 	ctx, cancel := context.WithTimeout(context.Background(), time.Duration(job.Slow)*10*time.Minute)
 	defer cancel()
-	if _, err := client.Connect(ctx, addr); err != nil {
+	if _, err := c16Connect(server, client, job.Slow); err != nil {
 		t.Fatalf("c16 e2e: connect: %v", err)
 	}
 	wait := time.Duration(job.Slow) * 10 * time.Second
@@ -417,7 +527,7 @@ func c16E2E(role string, descs [][2]string, ids [][]byte, slow int) []c16E2ERes 
 	for i := range res {
 		res[i].Obs = -1
 	}
-	next := 0
+	next, setupFailures := 0, 0
 	for next < len(ids) {
 		f, err := os.CreateTemp("", "c16e2e*.json")
 		if err != nil {
@@ -461,9 +571,13 @@ func c16E2E(role string, descs [][2]string, ids [][]byte, slow int) []c16E2ERes 
 			tail = tail[len(tail)-1500:]
 		}
 		if !strings.Contains(txt, "C16E2E READY") {
-			// the two services could not be set up (busy machine): nothing observed, nothing claimed
+			// the two services could not be set up (busy machine): nothing observed, nothing claimed; one more try
+			setupFailures++
+			if setupFailures < 3 {
+				continue
+			}
 			for i := next; i < len(ids); i++ {
-				res[i] = c16E2ERes{Obs: 97, Note: "child set-up failed: " + tail}
+				res[i] = c16E2ERes{Obs: -2, Note: "child set-up failed: " + tail}
 			}
 			break
 		}
@@ -479,8 +593,8 @@ func c16E2E(role string, descs [][2]string, ids [][]byte, slow int) []c16E2ERes 
 		}
 	}
 	for i := range res {
-		if res[i].Obs < 0 {
-			res[i] = c16E2ERes{Obs: 97, Note: "no result"}
+		if res[i].Obs == -1 {
+			res[i] = c16E2ERes{Obs: -2, Note: "no result"}
 		}
 	}
 	return res
@@ -552,6 +666,12 @@ func TestVerifC16(t *testing.T) {
 				"hname", coqBytes(in.Name), "supported", coqBytes(in.Supported), "ipre", coqStr(ipre), "iname", coqStr(iname), "nums", nums, "obs", coqN(uint64(obs)))
 		})
 	}
+	inconclusive := 0 // cases dropped because the environment (not the code under test) failed
+	defer func() {
+		if inconclusive > 0 {
+			t.Logf("c16: %d cases inconclusive (environment failures), dropped", inconclusive)
+		}
+	}()
 	run := func(class string, in c16In) {
 		if in.Stress > 0 {
 			// own case kind 3: 0 = every verdict right, 1 = a wrong verdict under concurrency, 2 = the child crashed
@@ -560,11 +680,19 @@ func TestVerifC16(t *testing.T) {
 				Res  int
 				Note string
 			}
+			if res < 0 {
+				inconclusive++
+				return
+			}
 			emit(class, in, stressObs{res, note}, 3, nil, "", "[]", res)
 			return
 		}
 		if in.E2E {
 			r := c16E2E(in.Role, in.Descs, [][]byte{in.Incoming}, e.Slow)[0]
+			if r.Obs < 0 {
+				inconclusive++
+				return
+			}
 			emit(class, in, r, 4, in.Descs, "", "[]", r.Obs)
 			return
 		}
@@ -573,7 +701,12 @@ func TestVerifC16(t *testing.T) {
 			if len(parts) != 2 {
 				return
 			}
-			obs := c16Route(t, e.Slow, in.Role, in.Descs, in.OneCall, [][2]string{{parts[0], parts[1]}})[0]
+			r := c16Route(t, e.Slow, in.Role, in.Descs, in.OneCall, [][2]string{{parts[0], parts[1]}})
+			if r == nil {
+				inconclusive++
+				return
+			}
+			obs := r[0]
 			emit(class, in, obs, 1, in.Descs, "", "[]", obs)
 			return
 		}
@@ -595,6 +728,10 @@ func TestVerifC16(t *testing.T) {
 	role := "bidder"
 	routing := func(descs [][2]string, oneCall bool, opens [][2]string) {
 		res := c16Route(t, e.Slow, role, descs, oneCall, opens)
+		if res == nil {
+			inconclusive += len(opens)
+			return
+		}
 		for i, o := range opens {
 			in := c16In{Incoming: []byte("/" + o[0] + "/" + o[1]), Routing: true, Descs: descs, OneCall: oneCall, Role: role}
 			emit("routing", in, res[i], 1, descs, "", "[]", res[i])
@@ -628,6 +765,8 @@ func TestVerifC16(t *testing.T) {
 		reopens := [][2]string{{"alpha", "1.0.0"}, {"alpha", "2.0.7"}, {"alpha", "2.1.0"}, {"alpha", "2.2.0"}, {"beta", "2.0.0"}, {"alpha", "02.01.9"}, {"beta", "002.000.1"}}
 		routing(redescs, true, reopens)
 		routing(redescs, false, reopens)
+		routing([][2]string{{"demo", "10000000000.20000000000.0"}}, true, [][2]string{{"demo", "10000000000.10000000000.10000000000"},
+			{"demo", "10000000000.20000000001.0"}, {"demo", "18446744073709551615.18446744073709551615.18446744073709551615"}})
 		if e.Tier == "thorough" {
 			routing([][2]string{{"p", "1.0.0"}, {"q", "1.0.0"}, {"r", "1.0.0"}, {"s", "1.0.0"}}, true,
 				[][2]string{{"p", "1.0.0"}, {"q", "1.0.0"}, {"r", "1.0.0"}, {"s", "1.0.0"}, {"s", "1.1.0"}, {"t", "1.0.0"}})
@@ -666,7 +805,8 @@ func TestVerifC16(t *testing.T) {
 			add(x)
 		}
 		// the rule itself end to end
-		for _, x := range []string{good, "/test/1.2.9", "/test/01.1.0", "/test/1.3.0", "/test/2.0.0", "/test/0.9.0", "/tes/1.0.0"} {
+		for _, x := range []string{good, "/test/1.2.9", "/test/01.1.0", "/test/1.3.0", "/test/2.0.0", "/test/0.9.0", "/tes/1.0.0",
+			"/test/1.2.18446744073709551615", "/test/00000000000000000001.00000000000000000002.18446744073709551615", "/test/1.18446744073709551615.0"} {
 			add(x)
 		}
 		// random bytes around the matching identifier
@@ -694,6 +834,10 @@ func TestVerifC16(t *testing.T) {
 		for _, r := range c16Roles {
 			res := c16E2E(r, descs, ids, e.Slow)
 			for i, id := range ids {
+				if res[i].Obs < 0 {
+					inconclusive++
+					continue
+				}
 				in := c16In{Incoming: id, E2E: true, Descs: descs, Role: r}
 				emit("hostile-id-e2e", in, res[i], 4, descs, "", "[]", res[i].Obs)
 			}
@@ -762,6 +906,35 @@ func TestVerifC16(t *testing.T) {
 		run("random-numeric", c16Numeric("", "preconf", [3]string{fmt.Sprint(M), fmt.Sprint(m), fmt.Sprint(c())}, "preconf",
 			[3]string{fmt.Sprint(HM), fmt.Sprint(Hm), fmt.Sprint(c())}))
 	}
+	// long version strings: several large components, each a valid 64-bit number (33 and more characters in all);
+	// the length of an identifier is no reason to refuse it
+	for i := 0; i < e.N/4+8; i++ {
+		big1 := func() uint64 {
+			switch e.rng.Intn(3) {
+			case 0:
+				return 10000000000 + uint64(e.rng.Intn(1000))
+			case 1:
+				return 1<<63 + e.rng.Uint64()>>1
+			default:
+				return ^uint64(0) - uint64(e.rng.Intn(1000))
+			}
+		}
+		M, m, p := big1(), big1(), big1()
+		HM, Hm, Hp := M, m, uint64(0)
+		switch e.rng.Intn(5) {
+		case 0:
+			Hm = m - 1 - uint64(e.rng.Intn(5)) // handler one minor behind: no match
+		case 1:
+			HM = big1()
+		case 2:
+			Hm = m + uint64(e.rng.Intn(3)) // may wrap only when m is within 2 of the maximum: then Hm < m, still the rule
+			Hp = big1()
+		}
+		nm := []string{"demo", "preconf"}[e.rng.Intn(2)]
+		run("long-versions", c16Numeric("", nm, [3]string{fmt.Sprint(M), fmt.Sprint(m), fmt.Sprint(p)}, nm,
+			[3]string{fmt.Sprint(HM), fmt.Sprint(Hm), fmt.Sprint(Hp)}))
+	}
+	run("long-versions", c16Numeric("", "demo", [3]string{"10000000000", "10000000000", "10000000000"}, "demo", [3]string{"10000000000", "20000000000", "0"}))
 	// other spellings of the same numbers (leading zeros on either side), a non-empty first segment, other names:
 	// the rule is the same on the whole numeric domain
 	for i := 0; i < e.N/2; i++ {
@@ -774,7 +947,7 @@ func TestVerifC16(t *testing.T) {
 			}
 			return uint64(e.rng.Intn(5))
 		}
-		nms := []string{"preconf", "handshake", "a", "ünï", "pre conf", ""}
+		nms := []string{"preconf", "handshake", "a", "ünï", "pre conf", "", "a/b", "preconf/"}
 		pres := []string{"", "", "", "junk", "1.0.0", " ", "preconf", "x", "\xff", "\xc3\x28", strings.Repeat("a", 300), "\x00"}
 		n := nms[e.rng.Intn(len(nms))]
 		hn := n
